@@ -29,6 +29,18 @@ CLAIMED = {
              "bound against its real signature, so a mis-bound argument is a TypeError): what they return is not decided.",
         technique="contract-based deductive verification: VCs from the real AST over a column-wise table model, z3 + cvc5",
         design="5/C18"),
+    "C15": dict(
+        text="graph_clustering ('cc', 'fastgreedy', 'multilevel', 'leiden'; the method name reaches igraph through eval of an f-string, which the "
+             "generator evaluates on each path) is verified, for every neighbour list including the EMPTY one and list / ndarray / Series node labels, "
+             "to return the caller's node labels with igraph's membership of the graph on vertices 0..len(nodes)-1 with one edge per neighbour triplet "
+             "(simplified first for the community methods), restricted to labels occurring more than once; no exception. hierarchical_clustering is "
+             "verified to return SciPy's linkage of the given (or default, chosen as in pcDelta) metric's condensed pairwise distances of the "
+             "(tuple-converted) input with the caller's or default options, and SciPy's fcluster of that linkage; default option dicts are not modified.",
+        note=NOTE_COMMON + " TERM LEVEL: igraph, SciPy hierarchy and the pandas selection operations are opaque deterministic functions; the graph-theoretic "
+             "meaning of membership (path-connectedness), 'communities never span components' and 'single linkage = threshold components' are assumed "
+             "library contracts, not decided.",
+        technique="contract-based deductive verification: VCs from the real AST over opaque library terms (operation/argument/order identity), z3 + cvc5",
+        design="5/C15"),
     "C17": dict(
         text="subsample (numpy repeat/concatenate unpacking, choice without replacement, unique with counts: sorted unique category indices, positive "
              "counts summing to n, each at most the original count - via the Lean counting lemma L-inj-count -, ValueError exactly when n exceeds the "
